@@ -405,8 +405,14 @@ class IH5Dataset(IH5Node):
         self._guard_read_only()
         if self._cidx == self._last_idx:
             raise ValueError("Cannot copy, this node is already from latest patch!")
-        # copy value from older container to current patch
+        # copy value from older container to current patch, together with the
+        # attributes (a dataset in the patch replaces the whole node)
+        attrs = dict(self.attrs.items())
+        if self._gpath in self._files[-1]:  # virtual node carrying attribute updates
+            del self._files[-1][self._gpath]
         self._files[-1][self._gpath] = self[()]
+        for k, v in attrs.items():
+            self._files[-1][self._gpath].attrs[k] = v
 
     # h5py-like interface
     @property
